@@ -373,6 +373,8 @@ def prog_cases(tier):
         f1 = _stmts(small, U=REDUCED_U, B=REDUCED_B)
         for s1 in f1:
             for s2 in _stmts(small + ["v1"], must_use="v1", U=REDUCED_U, B=REDUCED_B):
+                if tie(s1) and tie(s2):
+                    continue
                 for s3 in _stmts(small + ["v1", "v2"], must_use="v2", U=REDUCED_U, B=[b for b in REDUCED_B if "maximum" not in b]):
                     # (maximum of two derived polynomial operands makes every path-feasibility query nonlinear: minutes per program)
                     n3 += 1
